@@ -173,6 +173,9 @@ func genRepoSnapshots(op OpSpec) []*asset.Snapshot {
 			return 50 + 50*rng.Float64()
 		}
 		out[i] = &asset.Snapshot{Date: base2000.AddDate(0, 0, op.From+i), Open: pick(), High: pick(), Low: pick(), Close: pick(), Volume: float64(rng.Intn(1e6))}
+		if rng.Intn(4) == 0 {
+			out[i].Volume += []float64{0.5, 0.25, 0.001}[rng.Intn(3)] // fractional shares are volumes too
+		}
 		if rng.Intn(8) == 0 {
 			// a wide row: every field near the longest float64 renderings (24 characters each)
 			wide := func() float64 {
